@@ -380,8 +380,10 @@ func (e *ControllerEngine) StartWatches(name string, ws ...Watch) error {
 	for i, w := range ws {
 		wid := WatchID{Type: w.wt, GVK: gvks[i]}
 		// We've already created this watch and the informer backing it is still
-		// running. We don't need to create a new watch.
-		if _, watchExists := c.sources[wid]; watchExists && activeInformer[wid.GVK] {
+		// running. We don't need to create a new watch. An informer for the
+		// GVK being active isn't enough to know that - a cached read may have
+		// started a new informer since the one our watch used was removed.
+		if src, watchExists := c.sources[wid]; watchExists && activeInformer[wid.GVK] && !src.Lost() {
 			e.log.Debug("Watch exists for GVK, not starting a new one", "controller", name, "watch-type", wid.Type, "watched-gvk", wid.GVK)
 			continue
 		}
@@ -425,7 +427,7 @@ func (e *ControllerEngine) StartWatches(name string, ws ...Watch) error {
 		// running. We don't need to create a new watch. We don't debug log this
 		// one - we'll have logged it above unless the watch was added between
 		// releasing the read lock and taking the write lock.
-		if _, watchExists := c.sources[wid]; watchExists && activeInformer[wid.GVK] {
+		if src, watchExists := c.sources[wid]; watchExists && activeInformer[wid.GVK] && !src.Lost() {
 			continue
 		}
 
